@@ -117,14 +117,40 @@ def cseg_encoder(dtype, C, block):
     return ce.CompressedSegmentationEncoder(str(np.dtype(dtype).name), C, list(block))
 
 
-def record_cseg_encode(arr, block):
-    """C02 case: arr is a (C, Z, Y, X) uint32/uint64 array."""
+PRESENTATIONS = ["C", "C", "be", "F", "xyzc-view", "strided", "readonly", "be-F"]
+
+
+def present(arr, how):
+    """The same label array as the caller may legally hold it: another byte order
+    or memory layout (values and shape unchanged)."""
+    a = arr
+    if how.startswith("be"):
+        a = a.astype(a.dtype.newbyteorder(">"))
+    if how.endswith("F"):
+        a = np.asfortranarray(a)
+    elif how == "xyzc-view":
+        a = np.ascontiguousarray(a.transpose(3, 2, 1, 0)).transpose(3, 2, 1, 0)
+    elif how == "strided":
+        big = np.zeros(tuple(2 * n for n in a.shape), dtype=a.dtype)
+        v = big[::2, ::2, ::2, ::2]
+        v[...] = a
+        a = v
+    elif how == "readonly":
+        a = a.copy()
+        a.setflags(write=False)
+    return a
+
+
+def record_cseg_encode(arr, block, how="C"):
+    """C02 case: arr is a (C, Z, Y, X) uint32/uint64 array; `how` = the byte order /
+    memory layout in which it is handed to the encoder (see present())."""
     C, Z, Y, X = arr.shape
     dtype = arr.dtype.name
     enc = cseg_encoder(dtype, C, block)
     cfg = cseg_cfg(C, (X, Y, Z), block, dtype)
     case = {"mode": "C02", "cfg": cfg, "dtype": dtype, "arr": arr_halves(arr)}
-    st, v = with_alarm(lambda: enc.encode(arr))
+    given = present(arr, how)
+    st, v = with_alarm(lambda: enc.encode(given))
     if st != "ok":
         case["enc"] = {"st": "exc" if st == "exc" else "hang",
                        "cls": exc_class(v) if st == "exc" else "hang", "n": 0, "h": [],
